@@ -289,6 +289,10 @@ func ReportMaskWord(w *World, r *Report, names ...string) {
 						}
 					}
 				}
+				// idx = x>>6 spelled x/64 (positions are non-negative)
+				if x, c, ok := asShiftRight(idx); ok && c == 6 && fa.VN(stripConv(x)) == fa.VN(stripConv(pos)) {
+					assembled = true
+				}
 				if !got.Eq(want) && !got.Eq(want2) && !assembled {
 					bad = fmt.Sprintf("the word %s[%s] is masked at %s with a mask built from the offset of position %s, which lies in word %s", containerRole(cont), got, w.InstrPos(ins), fa.Lin(pos), want)
 				}
